@@ -111,8 +111,11 @@ def finish(rep, argv_cmd=None):
         rp = os.path.join(rdir, '%s-%s.json' % (pid, hashlib.sha1(o['id'].encode()).hexdigest()[:10]))
         with open(rp, 'w') as f:
             json.dump(dict(property=pid, tier=rep.tier, obligation=o), f, indent=1, default=str)
-        print('  refuted: [%s] %s @ %s: %s' % (o['rule'], o['id'], o['site'], o['detail']))
-        print('VIOLATION property=%s replay=%s' % (pid, rp))
+        if i < 25:
+            print('  refuted: [%s] %s @ %s: %s' % (o['rule'], o['id'], o['site'], o['detail']))
+            print('VIOLATION property=%s replay=%s' % (pid, rp))
+    if len(new_viol) > 25:
+        print('  ... and %d more refuted obligations (all listed in the evidence file)' % (len(new_viol) - 25))
     for o in incompl[:40]:
         print('ANALYSIS-INCOMPLETE property=%s [%s] %s @ %s: %s' % (pid, o['rule'], o['id'], o['site'], o['detail']))
     if len(incompl) > 40:
@@ -140,6 +143,8 @@ def finish(rep, argv_cmd=None):
     cov['rules'] = byrule
     if rep.info:
         cov['information'] = rep.info[:50]
+    if refuted:
+        cov['refuted_obligations'] = [dict(id=o['id'], rule=o['rule'], site=o['site'], detail=o['detail'][:400]) for o in refuted[:200]]
     ev = dict(property_id=pid, tier=rep.tier, seed=rep.seed, level=rep.level, coverage=cov,
               assumptions=rep.assumptions, wall_s=round(time.time() - rep.t0, 3), violations=len(new_viol))
     with open(os.path.join(ROOT, 'evidence', pid + '.json'), 'w') as f:
